@@ -85,7 +85,7 @@ _ADD = {
  "C02": " Also: per-output arm agreement (sink-uniform, 14 instances) and child-window-from-offsets (a window into the shared child of a List/Map/ListView/RunEndEncoded parent starts at a computed position, never a constant; 9 sites).",
  "C03": " Also: sink-uniform on the MutableArrayData dispatches and inline-view-threshold (18 comparison sites agree that a 12-byte view is inline).",
  "C04": " Also: non-interference of the body codec (the codec given to write_array_data depends on the write options only, as the header's BodyCompression entry does) and sink-uniform on write_array_data.",
- "C08": " Also: rejections-kept (2763 rejecting decisions in 705 decoder functions of the anchored files; a function that lost one while its crate's total dropped is reported) and validator-inputs-checked on the ArrayData validators.",
+ "C08": " Also: rejections-kept (census of the explicit rejecting checks in the decoder functions of the anchored files -- `?` propagation is not counted; a function that lost one while its crate's total dropped is reported) and validator-inputs-checked on the ArrayData validators.",
  "C09": " Also two ratchets over 42 validators/constructors: every (type, field-path) input that decided a rejecting branch still does (range.start, max_value, offset_limit, ...), and no existing rejecting decision has been put behind an additional enabling condition (fast path, early continue).",
  "C11": " Also: sink-uniform (both LengthTracker arms let initial_offset reach the pushed offsets and the returned total).",
  "C12": " Also: the Kleene validity/value closures are decided exactly by their 16-row truth tables (computed from MIR over a finite abstract domain), and try_for_each_valid_idx receives the offset of the NullBuffer whose bitmap it is given.",
